@@ -260,7 +260,27 @@ def lemma_no_silent_clamp(model: Model, run: Run, mr) -> None:
                 if not ok:
                     run.fail(Finding("T1-no-silent-clamp", fq, norm(n), f"`{norm(n)}` is taken without a dominating check that `{x}` has at least `{norm(up)}` octets: "
                                      "a short input is silently truncated instead of raising NotEnougData", model.loc(fi.module, n)))
-    run.floor("upper-bounded input slices", n_sites, 2)
+    # T2: a single octet of the input is read in a way that does not depend on the item format of the buffer it came in: `view[i]` on a
+    # memoryview yields the item *as its format says* (a signed char for array('b') / .cast('b'), a bytes object for 'c'), while
+    # `struct.unpack("B", view[i:i + 1])` and `bytes(view[i:i + 1])` see the octet.  The reader takes "bytes, bytearray or memoryview":
+    # an element read by index is only an octet when the buffer is known to be bytes / bytearray / a view made here over those.
+    n_idx = 0
+    for fq, fi in list(model.functions.items()):
+        if fi.module != "sansldap.asn1" or isinstance(fi.node, ast.Lambda) or fq not in reader_side:
+            continue
+        for n in walk_no_nested(fi.node):
+            if isinstance(n, ast.Subscript) and not isinstance(n.slice, ast.Slice) and isinstance(n.ctx, ast.Load):
+                bt = mr.r.strip_opt(mr.r.type_of(n.value, fi))
+                if bt[0] != "prim" or bt[1] not in ("memoryview", "byteslike"):
+                    continue
+                n_idx += 1
+                run.ob("T2-octets-read-independently-of-the-buffer-format", False, {"function": fi.name, "read": norm(n)})
+                run.fail(Finding("T2-octets-read-independently-of-the-buffer-format", fq, norm(n),
+                                 f"`{norm(n)}` reads an element of a caller-supplied buffer by index: for a memoryview that is the item as the view's format converts it "
+                                 "(negative for a signed-char view, a bytes object for 'c'), not the octet - the same octets decode to a different length or tag depending on "
+                                 "what holds them", model.loc(fi.module, n)))
+    run.ob("T2-octets-read-independently-of-the-buffer-format", True, {"indexed_reads_of_views": n_idx})
+    run.floor("upper-bounded input slices and indexed reads", n_sites + n_idx, 2)
 
 
 def _truth_table(e: ast.expr, view: str, n: int):
